@@ -7,6 +7,13 @@ package arbitrator
 // caps per node / namespace / workload / globally, allowed unavailability per workload (both with the "already
 // exceeded before the round => must not grow" proviso), "refused for lack of headroom => still waiting, not failed",
 // and at EVERY reached state Filter(pod) must be false for every pod that has a live job.
+// Besides the add / round / run / finish / unready cycle some configurations contain environment events that leave the
+// arbitrator with state the rounds were not written for: podDeleted(p) (the pod of a waiting job disappears; the
+// arbitrator gets no event), restart() (fresh arbitratorImpl + filter, the initial sync re-delivers every job as a Create
+// event; nothing else is rebuilt by the production start-up), dupJob(p) (a user creates a second job for a pod; the API
+// admits it), touchJob(p) (another writer updates a waiting job). They are judged by the same clauses; violations in
+// states that carry such residue get the key suffix |after:podDeleted / |after:restart / |after:duplicateJob.
+// Findings on the unchanged tree: arb_repro_test.go.txt (plain tests), arb_fix_proposal.diff.txt.
 // See /verif/DESIGN.md §4 C16 "Arbitration rounds".
 
 import (
@@ -1117,8 +1124,8 @@ func c16Configs(env *mc.Env) []*c16Cfg {
 		{name: "wl1-node2-restart", elig: []string{"a1", "a2", "a3", "b1"}, perNode: i(2), perWl: c16IS("1"), maxUnav: c16IS("70%"), unreadyOK: []string{"a2"}, restart: true, depthQ: 7, depthT: 9},
 		// unavailability 50% (1 of 3, 1 of 2) below the workload cap, pods turning unready (also beyond the allowance)
 		{name: "unav50pct", elig: []string{"a1", "a2", "b1"}, perWl: c16IS("70%"), maxUnav: c16IS("50%"), unreadyOK: []string{"a1", "a3", "b2"}, depthQ: 7, depthT: 10},
-		// unavailability 1, global 2, everything else unset
-		{name: "unav1-global2-poddel", elig: []string{"a1", "a3", "b1", "b2"}, global: i(2), maxUnav: c16IS("1"), unreadyOK: []string{"a2"}, podDel: []string{"a3", "b2"}, depthQ: 7, depthT: 9},
+		// unavailability 1 (one slot per workload), global 1 (the binding limit across the workloads), everything else unset
+		{name: "unav1-global1-poddel", elig: []string{"a1", "a3", "b1", "b2"}, global: i(1), maxUnav: c16IS("1"), unreadyOK: []string{"a2"}, podDel: []string{"a3", "b2"}, depthQ: 7, depthT: 9},
 		// allowance == replicas for w2: its jobs are refused for good (Failed) while w1 competes for node / namespace slots
 		{name: "wl2-nonretryable", elig: all, perNode: i(2), perNs: i(2), perWl: c16IS("2"), maxUnav: c16IS("2"), depthQ: 6, depthT: 9},
 		// the arbitrator's copy of a waiting job goes stale (another writer updated the job): its Update conflicts
